@@ -6,6 +6,7 @@
 //! step by step with a plain `Vec<Color<f32>>` subjected to the same operation.
 mod engine;
 mod fam;
+mod hetero;
 mod ops;
 
 use engine::*;
@@ -291,6 +292,16 @@ fn replay_case<G: Cfg>(c: &mut Collector, case: &Value) {
 fn replay(ctx: &Ctx, c: &mut Collector, rep: &Value) {
     let case = &rep["case"];
     let cfg = case["cfg"].as_str().unwrap_or("").to_string();
+    if case["sub"] == "hetero-alpha" {
+        // small space: the sub-check is re-run and only the replayed signature kept
+        let only = Ctx { id: ctx.id, tier: ctx.tier, seed: ctx.seed, start: ctx.start, root: ctx.root.clone(), only: Some("hetero-alpha".into()) };
+        let mut all = Collector::new();
+        hetero::run(&only, &mut all);
+        let want = rep["signature"].as_str().unwrap_or("").to_string();
+        all.viol.retain(|k, _| *k == want);
+        c.merge(all);
+        return;
+    }
     if case["sub"] == "unmerged" {
         // the reachable-set cross-check: re-run it for that configuration
         if dispatch(&cfg, VUnmerged(ctx, c, Some((case["max_len"].as_u64().unwrap_or(5) as usize, case["ncol"].as_u64().unwrap_or(2) as usize)))).is_none() {
@@ -328,6 +339,7 @@ fn real_main() -> i32 {
     for name in all_names() {
         let _ = dispatch(&name, VUnmerged(&ctx, &mut total, None));
     }
+    hetero::run(&ctx, &mut total);
     total.note("type_configs", json!(all_names()));
     let run: Vec<String> = all_names().into_iter().filter(|n| ctx.wants(&format!("bfs/{n}")) || ctx.wants(&format!("basic/{n}")) || ctx.wants(&format!("unmerged/{n}"))).collect();
     collapse(&mut total, &run);
